@@ -6,23 +6,23 @@
 #    the change applied (VERIF_REPO), and prints the verdict lines.
 export GOFLAGS=-mod=mod GOPROXY=off GOSUMDB=off GOTOOLCHAIN=local
 P=$1; PATCH=$2; DEMO=$3; shift 3; EXTRA="$@"
-R=/tmp/evalrepo
+R=${EVALREPO:-/tmp/evalrepo}
 if [ ! -d $R ]; then git -C /repo worktree add -q --detach $R HEAD; fi
 git -C $R checkout -q --detach $(git -C /repo rev-parse HEAD) 2>/dev/null
 git -C $R checkout -q -- . ; git -C $R clean -fdq
 pkgdir() { case "$(grep -m1 '^package ' $1 | awk '{print $2}')" in template|template_test) echo template;; safehtmlutil) echo internal/safehtmlutil;; *) echo .;; esac; }
 D=$(pkgdir $DEMO)
 cp $DEMO $R/$D/zz_seed_demo_test.go
-( cd $R && go test -count=1 ./$D -run 'Seed|Demo' >/tmp/evalrepo.base.log 2>&1 ); BASE=$?
+( cd $R && go test -count=1 ./$D -run 'Seed|Demo' >$R.base.log 2>&1 ); BASE=$?
 if ! git -C $R apply $PATCH; then echo "SEEDEVAL $P patch-does-not-apply"; exit 2; fi
-( cd $R && go test -count=1 ./$D -run 'Seed|Demo' >/tmp/evalrepo.mut.log 2>&1 ); MUT=$?
+( cd $R && go test -count=1 ./$D -run 'Seed|Demo' >$R.mut.log 2>&1 ); MUT=$?
 rm -f $R/$D/zz_seed_demo_test.go
-( cd $R && go build ./... >/tmp/evalrepo.build.log 2>&1 && go test -count=1 ./... >/tmp/evalrepo.test.log 2>&1 ); SUITE=$?
+( cd $R && go build ./... >$R.build.log 2>&1 && go test -count=1 ./... >$R.test.log 2>&1 ); SUITE=$?
 echo "SEEDEVAL $P demo_without=$BASE demo_with=$MUT suite_with=$SUITE"
 cd /verif
 for Q in $P $EXTRA; do
-  VERIF_REPO=$R ./check $Q quick >/tmp/evalrepo.check.out 2>/dev/null; RC=$?
-  OUT=$(grep -v "^KNOWN-FINDING\|^NOTE" /tmp/evalrepo.check.out)
+  VERIF_REPO=$R ./check $Q quick >$R.check.out 2>/dev/null; RC=$?
+  OUT=$(grep -v "^KNOWN-FINDING\|^NOTE" $R.check.out)
   echo "SEEDEVAL $P check=$Q -> ${OUT:-exit$RC-no-violation-line}"
 done
 git -C $R checkout -q -- . ; git -C $R clean -fdq
